@@ -267,30 +267,43 @@ Proof. split; reflexivity. Qed.
 Variable so : sigops.
 Hypothesis SO : tap_sigops_ok so.
 
+(* Tx.finalize_p2tr_multisig takes the last byte of ANY 65-byte signature as its hash type; the
+   interpreter (since fix 746b81a, BIP341's signature validation rule) only accepts the defined
+   ones 01 02 03 81 82 83.  Hypothesis on the signatures handed to finalize: *)
+Definition sigs_defined_ht (sigs : list bytes) : Prop :=
+  Forall (fun sg => length sg = 65%nat -> schnorr_ht_defined (last sg 0) = true) sigs.
+
 (* a slot chosen by finalize is a slot the interpreter accepts: empty, or a verifying signature *)
 Lemma slot_ok x P sigs s :
+  sigs_defined_ht sigs ->
   parse_xonly C x = Ok P -> fin_find P sigs = Ok s -> sig_slot_ok so x s.
 Proof.
-  intros Hx Hs. destruct SO as [SO1 SO2]. split; [rewrite SO1, Hx; reflexivity|].
-  destruct (fin_find_spec P sigs s Hs) as [[-> _] | (Hne & Hok & _)]; [now left|]. right.
-  rewrite SO2, Hx. cbn [bind]. unfold Musig.fin_check in Hok. unfold schnorr_split.
+  intros Hform Hx Hs. destruct SO as [SO1 SO2]. split; [rewrite SO1, Hx; reflexivity|].
+  destruct (fin_find_spec P sigs s Hs) as [[-> _] | (Hne & Hok & pre & post & E & _)]; [now left|]. right.
+  assert (Hin : In s sigs) by (rewrite E; apply in_or_app; right; now left).
+  pose proof (proj1 (Forall_forall _ _) Hform s Hin) as Hd.
+  unfold Musig.fin_check in Hok. unfold schnorr_form_ok, schnorr_split.
   destruct (length s =? 64)%nat eqn:E64.
-  - apply Nat.eqb_eq in E64. assert (E65 : (length s =? 65)%nat = false) by (apply Nat.eqb_neq; lia).
+  - split; [reflexivity|]. rewrite SO2, Hx. cbn [bind].
+    apply Nat.eqb_eq in E64. assert (E65 : (length s =? 65)%nat = false) by (apply Nat.eqb_neq; lia).
     rewrite E65. cbn [fst snd]. exact Hok.
-  - destruct (length s =? 65)%nat eqn:E65; [|discriminate]. cbn [fst snd]. exact Hok.
+  - destruct (length s =? 65)%nat eqn:E65; [|discriminate].
+    split; [rewrite (Hd (proj1 (Nat.eqb_eq _ _) E65)); reflexivity|].
+    rewrite SO2, Hx. cbn [bind fst snd]. exact Hok.
 Qed.
 
 Lemma slots_ok : forall xs pts sigs slots,
+  sigs_defined_ht sigs ->
   mapM (parse_xonly C) xs = Ok pts ->
   Forall2 (fun P s => fin_find P sigs = Ok s) pts slots ->
   Forall2 (sig_slot_ok so) xs slots.
 Proof.
-  induction xs as [|x xs IH]; intros pts sigs slots Hm HF; cbn [mapM] in Hm.
+  induction xs as [|x xs IH]; intros pts sigs slots Hform Hm HF; cbn [mapM] in Hm.
   - injection Hm as <-. inversion HF. constructor.
   - destruct (parse_xonly C x) as [P|] eqn:Ex; [|discriminate]. cbn [bind] in Hm.
     destruct (mapM (parse_xonly C) xs) as [ps|] eqn:Em; [|discriminate]. cbn [bind] in Hm.
     injection Hm as <-. inversion HF as [|? s ? slots' Hs HF']; subst.
-    constructor; [exact (slot_ok x P sigs s Ex Hs) | exact (IH ps sigs slots' eq_refl HF')].
+    constructor; [exact (slot_ok x P sigs s Hform Ex Hs) | exact (IH ps sigs slots' Hform eq_refl HF')].
 Qed.
 
 (* number of keys somebody signed for *)
@@ -326,6 +339,7 @@ Theorem finalize_spend_iff keys k cs pts raw cbs sigs items' r a :
   multisig_cmds C NoLock keys k = Ok cs ->
   multisig_points C keys = Ok pts ->
   finalize {| ti_items := [raw; cbs]; ti_points := Some pts |} sigs = Ok (items', true) ->
+  sigs_defined_ht sigs ->
   exists slots,
     items' = rev slots ++ [raw; cbs] /\ length slots = length keys /\
     rev (firstn (length items' - 2) items') = slots /\
@@ -334,13 +348,13 @@ Theorem finalize_spend_iff keys k cs pts raw cbs sigs items' r a :
     ((exists fuel, vloop fuel cs (slots ++ r) a (fl_off true) = OTrue)
      <-> zlen (filter (signed_b sigs) pts) = k).
 Proof.
-  intros H2 Hk Hcs Hpts Hfin.
+  intros H2 Hk Hcs Hpts Hfin Hform.
   rewrite (multisig_cmds_tap_script C keys k cs H2 Hk Hcs).
   unfold multisig_points in Hpts. destruct keys as [|k0 keys']; [cbn in H2; lia|].
   set (keys := k0 :: keys') in *. set (xs := sort_bytes (map xonly keys)) in *.
   rewrite finalize_initialised in Hfin. injection Hfin as Hfin.
   destruct (fin_loop_spec pts sigs _ _ Hfin) as (slots & -> & HF).
-  pose proof (slots_ok xs pts sigs slots Hpts HF) as Hslots.
+  pose proof (slots_ok xs pts sigs slots Hform Hpts HF) as Hslots.
   assert (Hlx : length xs = length keys).
   { unfold xs. rewrite (Permutation_length (sort_perm _)). apply map_length. }
   assert (Hls : length slots = length keys) by (rewrite <- Hlx; symmetry; exact (Forall2_len _ _ _ Hslots)).
@@ -364,14 +378,15 @@ Theorem finalize_verify_input keys k cs pts raw cbs sigs items' x ts :
   multisig_cmds C NoLock keys k = Ok cs ->
   multisig_points C keys = Ok pts ->
   finalize {| ti_items := [raw; cbs]; ti_points := Some pts |} sigs = Ok (items', true) ->
+  sigs_defined_ht sigs ->
   length x = 32%nat -> hd 0 cbs <> 80 ->
   script_path_commit_check C sha256 x items' = Ok true ->
   witness_tap_script items' = Ok ts -> s_cmds ts = cs ->
   zlen (filter (signed_b sigs) pts) = k ->
   verify_input C ripemd160 sha1 sha256 hash160 hash256 so c items' [] (p2tr_script x) = OTrue.
 Proof.
-  intros H2 Hk Hcs Hpts Hfin Hx Hcb Hcommit Hts Hsc Hcount.
-  destruct (finalize_spend_iff keys k cs pts raw cbs sigs items' [] [] H2 Hk Hcs Hpts Hfin)
+  intros H2 Hk Hcs Hpts Hfin Hform Hx Hcb Hcommit Hts Hsc Hcount.
+  destruct (finalize_spend_iff keys k cs pts raw cbs sigs items' [] [] H2 Hk Hcs Hpts Hfin Hform)
     as (slots & Hit & Hls & Hrev & HF & Hslots & _).
   pose proof (multisig_cmds_tap_script C keys k cs H2 Hk Hcs) as Ecs.
   assert (Hlx : length (sort_bytes (map xonly keys)) = length keys).
@@ -400,12 +415,13 @@ Theorem finalize_k_of_k_iff keys k cs pts raw cbs sigs items' r a :
   multisig_points C keys = Ok pts ->
   (forall P, In P pts -> no_raise P sigs) ->
   finalize {| ti_items := [raw; cbs]; ti_points := Some pts |} sigs = Ok (items', true) ->
+  sigs_defined_ht sigs ->
   ((exists fuel, vloop fuel cs (rev (firstn (length items' - 2) items') ++ r) a (fl_off true) = OTrue)
    <-> forall P, In P pts -> signed P sigs).
 Proof.
-  intros H2 Hzk Hk16 Hcs Hpts Hnr Hfin.
+  intros H2 Hzk Hk16 Hcs Hpts Hnr Hfin Hform.
   assert (Hk : 1 <= k <= 16) by (unfold zlen in Hzk; lia).
-  destruct (finalize_spend_iff keys k cs pts raw cbs sigs items' r a H2 Hk Hcs Hpts Hfin)
+  destruct (finalize_spend_iff keys k cs pts raw cbs sigs items' r a H2 Hk Hcs Hpts Hfin Hform)
     as (slots & _ & Hls & -> & HF & _ & Hiff).
   rewrite Hiff.
   assert (Hlp : length pts = length keys) by (rewrite <- Hls; exact (Forall2_len _ _ _ HF)).
